@@ -26,7 +26,11 @@ type Park struct {
 	release chan struct{}
 	once    sync.Once
 	done    bool
+	gid     int64
 }
+
+// Gid is the id of the goroutine parked here (0 if none yet).
+func (p *Park) Gid() int64 { return atomic.LoadInt64(&p.gid) }
 
 // Reached is closed when a goroutine is parked.
 func (p *Park) Reached() <-chan struct{} { return p.reached }
@@ -161,6 +165,7 @@ func (d *Director) hit(name string, who interface{}) {
 	census.Bump()
 
 	if park != nil {
+		atomic.StoreInt64(&park.gid, census.Self())
 		close(park.reached)
 		<-park.release
 		census.Bump()
